@@ -61,7 +61,8 @@ CHECKS = {
     "C16": dict(level="exploration", ref="DESIGN.md §4 C16",
                 text="Seeded schedules of 1-3 real devices (event loop, MIDI-in tracker, LED loop against a fake OpenRGB server) with unplug at PRNG-chosen moments and "
                      "injected peer faults, built with -race: bounded termination, no live child goroutines, the race detector as happens-before monitor (the "
-                     "scheduler's own synchronisation is hidden from it), solo-vs-together differential for cross-talk.",
+                     "scheduler's own synchronisation is hidden from it), solo-vs-together differential for cross-talk."
+                     " A tenth of the runs use the manager world W7: the real Manager.Run (watcher, loader, fan-out, one real device per connected input device) against a harness that is device discovery, the evdev source of every device, the MIDI port and a user who plugs, unplugs, plays and saves configuration files; there: nothing left sounding after a device's stream ended, an empty device table once everything is unplugged, Run returns after cancellation and leaves no goroutine.",
                 note="Servers answer with bounded delays (a server stalled forever is outside the statement). Race reports without a frame in HIDI abort with exit 2."),
     "C17": dict(level="exploration", ref="DESIGN.md §4 C17",
                 text="Lock-step runs of a real device with the LED loop connected to a fake OpenRGB server (real wire protocol over net.Pipe, sysfs stub): after each key / "
@@ -90,13 +91,15 @@ CHECKS = {
     "C12": dict(level="exploration", ref="DESIGN.md §4 C12",
                 text="Generated hidi-config trees (every presence combination of exact/default/other/broken/non-TOML files in the four directories, nested directories, "
                      "unreadable files, a missing or unreadable directory injected through the file-system seam) loaded with the real LoadDeviceConfigs and queried with "
-                     "FindConfig for keyboard, joystick, mouse and unknown devices; compared with a reference precedence over what is present and valid at read time.",
+                     "FindConfig for keyboard, joystick, mouse and unknown devices; compared with a reference precedence over what is present and valid at read time."
+                     " A few per cent of the runs use the manager world W7: the real Manager.Run (watcher, loader, fan-out, one real device per connected input device) against a harness that is device discovery, the evdev source of every device, the MIDI port and a user who plugs, unplugs, plays and saves configuration files; there: the note a connected device plays is that of the file the precedence order selects among the files that parse.",
                 note="Identifiers are unique per directory (the statement does not say which of two equal identifiers wins). A directory problem may surface as an error or as an "
                      "empty class - both are accepted, a panic is not."),
     "C19": dict(level="exploration", ref="DESIGN.md §4 C19",
                 text="Seeded schedules of the real DetectDeviceConfigChanges over a simulated inotify/fsnotify: user writes (single/multi write(), append, create, atomic rename, "
                      "remove, nested) to TOML and look-alike names, a prompt or late consumer, cancellation at any time: every in-place modification of a *.toml file is followed "
-                     "by a notification, no notification without one, never more notifications than write operations, the stream closes after cancel.",
+                     "by a notification, no notification without one, never more notifications than write operations, the stream closes after cancel."
+                     " A tenth of the runs use the manager world W7: the real Manager.Run (watcher, loader, fan-out, one real device per connected input device) against a harness that is device discovery, the evdev source of every device, the MIDI port and a user who plugs, unplugs, plays and saves configuration files; there: a save is followed by a new discovery cycle and the saved content is in force for the reconnected devices; unrelated files cause no reload.",
                 note="fsnotify and the kernel are replaced by a stub that mirrors fsnotify 1.5.1's observable contract; its Errors path and queue overflow are not modelled."),
     "C20": dict(level="exploration", ref="DESIGN.md §4 C20",
                 text="The real input.Normalize on generated handler multisets in six discovery orders, each with a PRNG map-iteration order: partition, grouping by physical "
